@@ -163,7 +163,8 @@ class Ctx:
             deps = re.sub(r"\\\n", " ", open(dep).read()).split(":", 1)[-1].split()
             need = any((not os.path.exists(d)) or os.path.getmtime(d) > mt for d in deps + [lib])
         if need:
-            with _Lock("harness-" + self.pid + "-" + name):
+            # the sgbuild lock keeps a concurrent ninja from relinking libsimgrid.so under the linker's feet
+            with _Lock("sgbuild"), _Lock("harness-" + self.pid + "-" + name):
                 if smpi:
                     cc = os.path.join(SGBUILD, "smpi_script", "bin", "smpicxx" if lang == "c++" else "smpicc")
                     cmd = [cc, "-O1", "-g", "-MMD", "-MF", dep, srcp, "-o", out] + list(flags)
